@@ -289,6 +289,7 @@ const S_BANDER: &str = "bandersnatch";
 const S_TOYSWU: &str = "toy_swu_f127";
 const S_TOYWB: &str = "toy_wb_f127";
 const S_TOYELL2: &str = "toy_ell2_f101";
+const S_TOYELL2B: &str = "toy_ell2_f107";
 
 pub fn all_suite_params() -> Vec<Value> {
     let x381 = bls_x::<ark_bls12_381::Config>();
@@ -305,6 +306,7 @@ pub fn all_suite_params() -> Vec<Value> {
         swu_params::<ToySwu>(S_TOYSWU),
         wb_params::<ToyWb>(S_TOYWB, "", "0", "cofactor"),
         ell2_params::<ToyEll2>(S_TOYELL2, ""),
+        ell2_params::<ToyEll2b>(S_TOYELL2B, ""),
     ]
 }
 
@@ -1061,6 +1063,14 @@ fn toy_exhaustive_item(rep: &mut Report, _rng: &mut Rng, _args: &Args, which: &'
             }
             cx.rep.exhaustive("WBMap over all 127 elements of F_127 (toy 13-isogeny onto y^2 = x^3 + 3)");
         },
+        S_TOYELL2B => {
+            cx.rep.config(&format!("map:{which}"));
+            cx.rep.require("exceptional Elligator2 denominator (1 + Z u^2 = 0)");
+            for i in 0..=53u64 {
+                ell2_pair::<ToyEll2b>(&mut cx, which, F107::from(i));
+            }
+            cx.rep.exhaustive("Elligator2Map over all 107 elements of F_107 (q = 3 mod 4, Z = -1: the exceptional inputs u = +-1 exist; toy curve 57 x^2 + y^2 = 1 + 55 x^2 y^2)");
+        },
         _ => {
             cx.rep.config(&format!("map:{which}"));
             for i in 0..=50u64 {
@@ -1133,7 +1143,7 @@ pub fn items(_args: &Args) -> Vec<Item> {
     }));
 
     // toy configurations
-    for which in [S_TOYSWU, S_TOYWB, S_TOYELL2] {
+    for which in [S_TOYSWU, S_TOYWB, S_TOYELL2, S_TOYELL2B] {
         items.push(Item::new(format!("map/{which}/exhaustive"), move |rep, rng, args| toy_exhaustive_item(rep, rng, args, which)));
     }
     items.push(Item::new(format!("hash/{S_TOYSWU}/SHA-256/0"), |rep, rng, args| {
@@ -1144,6 +1154,9 @@ pub fn items(_args: &Args) -> Vec<Item> {
     }));
     items.push(Item::new(format!("hash/{S_TOYELL2}/SHA-256/0"), |rep, rng, args| {
         hash_item::<te::Projective<ToyEll2>, Elligator2Map<ToyEll2>, Sha256>(rep, rng, args, S_TOYELL2, "", 0, 2)
+    }));
+    items.push(Item::new(format!("hash/{S_TOYELL2B}/SHA-256/0"), |rep, rng, args| {
+        hash_item::<te::Projective<ToyEll2b>, Elligator2Map<ToyEll2b>, Sha256>(rep, rng, args, S_TOYELL2B, "", 0, 2)
     }));
 
     // expander / hash_to_field alone
